@@ -562,7 +562,8 @@ pub fn fix_widths(forest: &mut [Node]) {
                 rec(c);
             }
         }
-        if !(n.is_master() && n.enc.unknown) && n.enc.size_w != 0 {
+        // (marked nodes are probes / injected faults whose width is deliberate)
+        if !(n.is_master() && n.enc.unknown) && n.enc.size_w != 0 && !n.enc.mark {
             let c = content_len(n);
             let min = size_min_width(c as u64) as u8;
             if n.enc.size_w < min {
